@@ -31,6 +31,11 @@ func genC01(t *rapid.T) Case {
 			}
 			op.Len = GenLen(t, true)
 			op.Via, op.Split = GenVia(t, op.Len)
+			op.CancelClose = GenCancelClose(t, op.Via)
+		}
+		// now and then the caller's context is already cancelled: the inline binding ignores it
+		if rapid.IntRange(0, 11).Draw(t, "cctx") == 0 {
+			op.Cctx = true
 		}
 		if k == "del" && op.Key < 0 {
 			op.Key = 0
@@ -69,7 +74,8 @@ func genC12Files(t *rapid.T) Case {
 			c.Ops = append(c.Ops, Op{K: "files", N: rapid.IntRange(2, 6).Draw(t, "nfiles"), Len: rapid.IntRange(0, 4000).Draw(t, "flen")})
 		}
 		if rapid.Bool().Draw(t, "setBetween") {
-			c.Ops = append(c.Ops, Op{K: "set", Key: rapid.IntRange(0, 1).Draw(t, "key"), Len: rapid.IntRange(0, 3000).Draw(t, "len"), Via: "create"})
+			c.Ops = append(c.Ops, Op{K: "set", Key: rapid.IntRange(0, 1).Draw(t, "key"), Len: rapid.IntRange(0, 3000).Draw(t, "len"), Via: "create",
+				CancelClose: rapid.Bool().Draw(t, "cancelBeforeClose"), Cctx: rapid.IntRange(0, 5).Draw(t, "cctx") == 0})
 		}
 	}
 	return c
